@@ -7,7 +7,7 @@ from . import common
 
 NAME = "U-opt"
 TOOL = "verus"
-PROPS = ["C02", "C18", "C14", "C16"]
+PROPS = ["C02", "C18", "C14", "C16", "C17"]
 RLIMIT = 200
 TRUSTED = ["verus 0.2026.09.13 + z3", "A-isa: register / memory / flag write sets of the 45 mnemonics (MOS datasheet), written as spec functions in this unit",
            "A-vstd (String ==, clone, Option)"]
@@ -64,6 +64,7 @@ pub open spec fn keeps(i: Option<&AsmLine>, k: Option<String>, same_store: AsmMn
     k is Some ==> (!(writes_x(ins(i).mnemonic) && ew_idx(k->Some_0@, 'X')) && !(writes_y(ins(i).mnemonic) && ew_idx(k->Some_0@, 'Y'))
                    && !(writes_mem(ins(i).mnemonic, ins(i).dasm_operand@) && ins(i).mnemonic != same_store && k->Some_0@ == ins(i).dasm_operand@))
 }
+pub open spec fn is_store(m: AsmMnemonic) -> bool { m == AsmMnemonic::STA || m == AsmMnemonic::STX || m == AsmMnemonic::STY }
 pub open spec fn is_compare(m: AsmMnemonic) -> bool { m == AsmMnemonic::CMP || m == AsmMnemonic::CPX || m == AsmMnemonic::CPY }
 
 // ---- oracle for the knowledge transfer: what an instruction writes (A-isa) -------------------------------------------------------
@@ -94,12 +95,15 @@ pub open spec fn nz_kept(m: AsmMnemonic) -> bool {
 
 
 def r15(c):
+    common.r27_is_some_and(c)
+    common.r24_inline_closures(c)
     c.sub(r"(\w+(?:\.\w+)*)\.starts_with\(\"#\"\)", r"starts_with_hash(&\1)", "R15 starts_with(\"#\")")
     c.sub(r"(\w+(?:\.\w+)*)\.starts_with\('#'\)", r"starts_with_hash(&\1)", "R15 starts_with('#')")
     c.sub(r"(\w+(?:\.\w+)*)\.ends_with\(\",X\"\)", r"ends_with_x(&\1)", "R15 ends_with(\",X\")")
     c.sub(r"(\w+(?:\.\w+)*)\.ends_with\(\",Y\"\)", r"ends_with_y(&\1)", "R15 ends_with(\",Y\")")
     c.sub(r"(\w+(?:\.\w+)*) == \"#0\"", r"is_imm0(&\1)", "R15 == \"#0\"")
     c.sub(r"\b(\w+)\.eq\(&(\w+(?:\.\w+)*)\)", r"(*\1 == \2)", "R15 a.eq(&b) -> *a == b")
+    common.r15_contains_lit(c)
     c.sub(r"starts_with_hash\(&(r|v)\)", r"starts_with_hash(\1)", "R15 (already a reference)")
     c.sub(r"ends_with_([xy])\(&(r|v)\)", r"ends_with_\1(\2)", "R15 (already a reference)")
 
@@ -109,7 +113,7 @@ def build(repo):
              ["src/assemble.rs: AssemblyCode::optimize -- block 'Analyze pairs of instructions' (R8)", "src/assemble.rs: AssemblyCode::optimize -- block 'Analyze the second instruction to check for a load' (R8)",
               "src/assemble.rs: AssemblyCode::optimize -- resynchronisation after remove_both (R8)"],
              assumptions=["A-isa write sets and the list of sound adjacent-pair eliminations are the oracle (spec functions of this unit)",
-                          "A-noalias: distinct operand texts denote distinct cells (arr+1 vs arr,X aliasing is outside the contract); A-immtext: equal immediates have equal text",
+                          "A-noalias (read-modify-write instructions only; NOT assumed for STA/STX/STY, which must forget every memory-derived belief: split-port RAM names one cell by two texts): distinct operand texts denote distinct cells; A-immtext: equal immediates have equal text",
                           "loop invariant of optimize() assumed as precondition: `first` is an Instruction and `second` the next Instruction (established by code outside the two blocks)",
                           "that a removed flag-setting load is invisible IN CONTEXT (whether N/Z are consumed later), the multipeek look-ahead (modelled as arbitrary lines), the Dummy/iterator plumbing, the JMP-to-next-label rule and termination equivalence are NOT decided",
                           "protected compare instructions (CMP/CPX/CPY) may be removed by the compare-folding rule: outside C18's statement list",
@@ -196,6 +200,12 @@ pub fn knowledge_transfer(second: Option<&AsmLine>, iter: &mut Peek, accumulator
         ((!remove_second && !remove_both) && writes_x(ins(second).mnemonic) ==> !(r.0 is Some && ew_idx(r.0->Some_0@, 'X')) && !(r.2 is Some && ew_idx(r.2->Some_0@, 'X'))), //@ C02:xfer-x-index-stale
         ((!remove_second && !remove_both) && writes_y(ins(second).mnemonic) ==> !(r.0 is Some && ew_idx(r.0->Some_0@, 'Y')) && !(r.1 is Some && ew_idx(r.1->Some_0@, 'Y'))), //@ C02:xfer-y-index-stale
         ((!remove_second && !remove_both) && writes_mem(ins(second).mnemonic, ins(second).dasm_operand@) && !sw_hash(ins(second).dasm_operand@) ==> (ins(second).mnemonic == AsmMnemonic::STA || !known(r.0, ins(second).dasm_operand@)) && (ins(second).mnemonic == AsmMnemonic::STX || !known(r.1, ins(second).dasm_operand@)) && (ins(second).mnemonic == AsmMnemonic::STY || !known(r.2, ins(second).dasm_operand@))), //@ C02:xfer-mem-written
+        // a store: no register is believed any more to hold the content of a memory cell -- two operand texts may name the same cell (the read and the
+        // write port of split-port cartridge RAM, `arr+1` and `arr,X`) -- except the cell just written, by the register that was stored
+        ((!remove_second && !remove_both) && is_store(ins(second).mnemonic) ==>
+            (r.0 is None || sw_hash(r.0->Some_0@) || (ins(second).mnemonic == AsmMnemonic::STA && known(r.0, ins(second).dasm_operand@)))
+            && (r.1 is None || sw_hash(r.1->Some_0@) || (ins(second).mnemonic == AsmMnemonic::STX && known(r.1, ins(second).dasm_operand@)))
+            && (r.2 is None || sw_hash(r.2->Some_0@) || (ins(second).mnemonic == AsmMnemonic::STY && known(r.2, ins(second).dasm_operand@)))), //@ C02,C17:xfer-store-forgets-aliases
         ((!remove_second && !remove_both) && r.3 == FlagsState::A && r.0 is Some ==> nz_is_a(ins(second).mnemonic, ins(second).dasm_operand@) || (flags == FlagsState::A && nz_kept(ins(second).mnemonic))), //@ C02:xfer-flags-a
 %(jmp_clause)s        ((!remove_second && !remove_both) && r.4 ==> !ins(second).protected), //@ C18,C02:xfer-reload-unprotected
         ((!remove_second && !remove_both) && r.4 ==> ((ins(second).mnemonic == AsmMnemonic::LDA && known(accumulator, ins(second).dasm_operand@)) || (ins(second).mnemonic == AsmMnemonic::LDX && known(x_register, ins(second).dasm_operand@)) || (ins(second).mnemonic == AsmMnemonic::LDY && known(y_register, ins(second).dasm_operand@)))), //@ C02:xfer-reload-redundant
@@ -226,7 +236,7 @@ pub fn resync_after_remove_both(first: Option<&AsmLine>, accumulator: Option<Str
     (accumulator, x_register, y_register)
 }
 """ % c.text
-    text = common.PRELUDE + common.header_comment(NAME, cuts) + "verus! {\n" + types + fl.text + "\n" + SPECS + pair + xfer + resync + common.CANARY + "\n} // verus!\n"
+    text = common.PRELUDE + common.header_comment(NAME, cuts) + "verus! {\n" + types + fl.text + "\n" + SPECS + common.STR_CONTAINS_SHIM + pair + xfer + resync + common.CANARY + "\n} // verus!\n"
     u.text[None] = text
     u.optional = ["O-C02-xfer-jump-forgets"]      # demanded only while the JMP-to-next-label rule does not reset the registers itself
     u.rewrites = common.collect_rewrites(cuts)
